@@ -231,14 +231,16 @@ func propFuncs(e *Engine, prop string) ([]*FuncContract, map[*FuncContract]bool)
 		if err != nil {
 			continue
 		}
-		for _, used := range t.usedContracts {
-			if used == nil || used.Extern || e.contractFn[used] == nil || sel[used] {
-				continue
+		for _, m := range []map[string]*FuncContract{t.usedContracts, t.spawned} {
+			for _, used := range m {
+				if used == nil || used.Extern || e.contractFn[used] == nil || sel[used] {
+					continue
+				}
+				if !hasProp(used.Props, prop) {
+					dep[used] = true
+				}
+				queue = append(queue, used)
 			}
-			if !hasProp(used.Props, prop) {
-				dep[used] = true
-			}
-			queue = append(queue, used)
 		}
 	}
 	var out []*FuncContract
